@@ -204,6 +204,16 @@ def _file_of_key(db, fn):
     return out
 
 
+def _stub_class(stub):
+    """`unwrap@a::b::Type::<T>::method` -> `unwrap@Type::<T>::method`: the producer without the module it lives in."""
+    kind, _, origin = stub.partition("@")
+    segs = origin.split("::")
+    for i, sg in enumerate(segs):
+        if sg[:1].isupper():
+            return kind + "@" + "::".join(segs[i:])
+    return stub
+
+
 def reach_rule(db, rep, r, entries, scope_prefixes=None, allow=None, site_allow=None, stop=(), floor=None,
                graph=None, extra_discharge=None):
     """Every panic site in local functions reachable from `entries` must be discharged.
@@ -226,7 +236,7 @@ def reach_rule(db, rep, r, entries, scope_prefixes=None, allow=None, site_allow=
         if parts[1].startswith("unwrap@"):
             f0 = _file_of_key(db, parts[0])
             if f0 is not None:
-                class_allow.setdefault((f0, parts[1]), why)
+                class_allow.setdefault((f0, _stub_class(parts[1])), why)
         else:
             fn_allow.setdefault((_parent_fn(parts[0]), parts[1]), []).append(why)
             f0 = _file_of_key(db, parts[0])
@@ -275,6 +285,8 @@ def reach_rule(db, rep, r, entries, scope_prefixes=None, allow=None, site_allow=
                 stub = s["key"].split("|")[1]
                 ck = (db.mir.file_of(fn), stub)
                 fk = (_parent_fn(fn), stub)
+                if stub.startswith("unwrap@"):
+                    ck = (db.mir.file_of(fn), _stub_class(stub))
                 if stub.startswith("unwrap@") and ck in class_allow:
                     reason = "same class as a reviewed site (%s in %s): %s" % (ck[1], ck[0], class_allow[ck])
                     used_allow.add("class:%s|%s" % ck)
